@@ -97,6 +97,8 @@ def _alarm(signum, frame):
 def worker_main(argv):
     prop, tier, seed, shard, nshards, out = argv[0], argv[1], int(argv[2]), int(argv[3]), int(argv[4]), argv[5]
     sys.path.insert(0, REPO)
+    from vlib import reach
+    reach.start(REPO)
     mod = load_prop(prop)
     ctx = Ctx(prop, tier, seed)
     ctx.shard = shard
@@ -130,8 +132,10 @@ def worker_main(argv):
     if hasattr(mod, "teardown"):
         mod.teardown(ctx)
     ctx.extra["worker_wall_s"] = time.time() - t0
+    d = ctx.dump()
+    d["reach"] = reach.dump()
     with open(out, "w") as f:
-        json.dump(ctx.dump(), f)
+        json.dump(d, f)
 
 
 # ----------------------------------------------------------------------------------- findings
@@ -212,6 +216,7 @@ def drive(prop, tier, seed, jobs=None, replay=None):
         procs.append((p, out))
     limit = getattr(mod, "WORKER_TIMEOUT", {}).get(tier, 900 if tier == "quick" else 3600)
     merged = Ctx(prop, tier, seed)
+    reached = {}
     inconclusive = []
     deadline = time.time() + limit
     for p, out in procs:
@@ -239,6 +244,8 @@ def drive(prop, tier, seed, jobs=None, replay=None):
             else:
                 m["count"] += v["count"]
                 m["witnesses"] = (m["witnesses"] + v["witnesses"])[:Ctx.MAX_WITNESS]
+        for rel, lns in d.get("reach", {}).items():
+            reached.setdefault(rel, set()).update(lns)
         for s_ in d["samples"]:
             if len(merged.samples) < 8:
                 merged.samples.append(s_)
@@ -263,9 +270,16 @@ def drive(prop, tier, seed, jobs=None, replay=None):
     except Exception:
         pass
 
+    from vlib import reach
+    reach_summary, reach_funcs, reach_unreached = reach.summarize(REPO, reached)
     stats = {"evaluations": merged.evaluations, "outcomes": dict(merged.outcomes), "monitors": dict(merged.monitors),
              "cells": dict(merged.cells), "distinct_nontrivial": len(merged.nontrivial), "extra": merged.extra,
-             "tier": tier}
+             "tier": tier, "reach_funcs": reach_funcs}
+    if not replay:
+        # M11: the mechanism the property is anchored in must have been executed by this run's workload
+        for rel, qual in getattr(mod, "ANCHOR_FUNCS", ()):
+            if not reach.entered(reach_funcs, rel, qual):
+                inconclusive.append("anchored function %s:%s was never executed by this run" % (rel, qual))
     if merged.outcomes.get("harness-error"):
         inconclusive.append("harness errors: %s" % json.dumps(merged.extra.get("harness_errors", [])[:2])[:1500])
     if merged.outcomes.get("hung-unknown"):
@@ -345,6 +359,24 @@ def drive(prop, tier, seed, jobs=None, replay=None):
           "new_violation_keys": [json.loads(k) for k, _ in new][:50],
           "tree": tree_info(), "jobs": jobs, "notes": dict(merged.notes),
           "extra": {k: (v if not isinstance(v, list) else v[:5]) for k, v in merged.extra.items() if not k.startswith("_")}}
+    ev["coverage"]["repo_reach"] = reach_summary
+    ev["coverage"]["repo_functions_entered"] = sum(1 for per in reach_funcs.values() for k, (h, _) in per.items()
+                                                   if h and not k.startswith("<module>"))
+    anchor_files = set()
+    try:
+        for l in open(os.path.join(VERIF, "properties.jsonl")):
+            pd = json.loads(l)
+            if pd["id"] == prop:
+                anchor_files = set(pd["anchors"]["files"])
+    except Exception:
+        pass
+    ev["coverage"]["anchor_files"] = {rel: reach_summary["by_file"].get(rel) for rel in sorted(anchor_files)}
+    ev["coverage"]["functions_never_entered_in_anchor_files"] = [u for u in reach_unreached
+                                                                  if u.split(":")[0] in anchor_files]
+    if os.environ.get("VERIF_REACH") and not replay:
+        os.makedirs(os.environ["VERIF_REACH"], exist_ok=True)
+        with open(os.path.join(os.environ["VERIF_REACH"], "%s-%s.json" % (prop, tier)), "w") as f:
+            json.dump({rel: sorted(v) for rel, v in reached.items()}, f)
     if hasattr(mod, "evidence_extra"):
         ev["coverage"].update(mod.evidence_extra(stats))
     if not replay:
